@@ -169,6 +169,17 @@ def r4_r5_params(sig, body, log):
     return sig2, body2
 
 
+def r16_pub_super(sig, log):
+    """`pub(super)` in a signature -> `pub(crate)`: the generated file flattens bnum's module tree
+    (all inherent impls sit at the crate root), so `super` has no meaning there; visibility only."""
+    out = list(sig)
+    for i in range(len(out) - 3):
+        if out[i] == 'pub' and out[i + 1] == '(' and out[i + 2] == 'super' and out[i + 3] == ')':
+            out[i + 2] = 'crate'
+            log['R16'] = log.get('R16', 0) + 1
+    return out
+
+
 def r6_int_ident(toks, log):
     out = []
     for t in toks:
